@@ -496,9 +496,10 @@ class Machine:
         return list(outcomes)
 
     def _exec_block(self, f, bb, env, cond, outcomes, onpath, counter):
-        if bb in getattr(self, "stop_blocks", ()):
-            # region execution: the path ends where the region ends
-            outcomes.append((cond, "stop", bb))
+        if bb in getattr(self, "stop_blocks", ()) and counter[0] > 0:
+            # region execution: the path ends where the region ends (a region may start at one
+            # of its own end blocks, e.g. a loop head)
+            outcomes.append((cond, "stop", {"bb": bb, "env": env}))
             return
         if bb in onpath:
             raise Unsupported("loop in %s at %s" % (f.name, bb))
